@@ -385,6 +385,28 @@ def h_interrupted_encode(S, B):
     S.observe("reached", "B" in built)
 
 
+def h_independent(S, B):
+    """two messages decoded one after the other: what the consumer of the first does with its annotations (the daemon hands
+    the dict to the call context, user code adds to it) does not show in the second"""
+    config.COMPRESSION = False
+    ann1 = {"AAAA": b"1"} if S.flag("first_has_annotation") else None
+    ann2 = {"BBBB": b"2"} if S.flag("second_has_annotation") else None
+    seq1 = S.int("first.seq", 0, 65535)
+    seq2 = S.int("second.seq", 0, 65535)
+    w1 = protocol.SendingMessage(protocol.MSG_INVOKE, 0, seq1, 3, b"one", annotations=ann1).data
+    w2 = protocol.SendingMessage(protocol.MSG_INVOKE, 0, seq2, 3, b"two", annotations=ann2).data
+    m1 = protocol.recv_stub(socketutil.SocketConnection(PlainSock(w1 if S.symbolic else bytes(w1))))
+    m1.annotations["XTRA"] = b"added by the consumer of the first message"
+    m2 = protocol.recv_stub(socketutil.SocketConnection(PlainSock(w2 if S.symbolic else bytes(w2))))
+    S.cover("two-decoded")
+    S.check("second-message-has-exactly-its-own-annotations", sorted(m2.annotations.keys()) == (["BBBB"] if ann2 else []))
+    S.check("decoded-messages-share-no-annotation-dict", m1.annotations is not m2.annotations)
+    S.check("second-message-keeps-its-own-fields", And(m2.seq == seq2, m1.seq == seq1))
+    m3 = protocol.ReceivingMessage(w2[:HEADER] if S.symbolic else bytes(w2[:HEADER]))
+    S.check("header-only-message-starts-without-annotations-of-others", len(m3.annotations) == 0 and m3.annotations is not m1.annotations)
+    S.observe("anns", sorted(m2.annotations.keys()))
+
+
 def _reset():
     from pysym.runner import default_reset
     default_reset()
@@ -411,6 +433,9 @@ SPECS = [
          covers=["interrupted", "check:message-A-keeps-its-own-header-fields", "check:message-B-keeps-its-own-header-fields"],
          native_patch=env.native_env, reset=_reset,
          desc="message A is being built and is interrupted before any one statement of SendingMessage.__init__ while a complete message B is built (another thread's whole encode scheduled at that point); symbolic types and sequence numbers; both messages decode to their own fields"),
+    Spec("independent_messages", h_independent, {"quick": {}, "thorough": {}},
+         covers=["two-decoded", "check:second-message-has-exactly-its-own-annotations"], native_patch=env.native_env, reset=_reset,
+         desc="two messages (with/without annotations, symbolic sequence numbers) decoded one after the other; the consumer adds an annotation to the first decoded message; the second shows exactly its own annotations and shares no dict with the first"),
     Spec("compressed_body", h_compressed_body, {"quick": {}, "thorough": {}},
          covers=["compressed:complete", "compressed:cut", "check:truncated-compressed-body-is-refused"],
          native_patch=env.native_env, reset=_reset,
